@@ -433,6 +433,52 @@ def conc_run(prop, harness_bin, flavor, gen, seed, tier, tag):
     return res
 
 
+MIRI_PROGRAMS = ["clone_clone", "drop_unjoined", "race_create", "inner_handles", "data_slots", "resolved", "green_share"]
+
+
+def miri_run(prop, seed, tier, tag):
+    """C07's search for a failing execution: free-running multi-threaded programs over the *unhooked* crate under
+    Miri's happens-before race detector (weak-memory emulation, several schedules per program)."""
+    n = 32 if tier == "thorough" else 4
+    lo = (seed % 1000) * n
+    env = dict(os.environ, CARGO_TARGET_DIR=os.path.join(BUILD, "target-miri"), CARGO_NET_OFFLINE="true",
+               MIRIFLAGS=f"-Zmiri-many-seeds={lo}..{lo + n}")
+    mdir = os.path.join(VERIF, "miri")
+    t0 = time.time()
+    rc, out = sh(["cargo", "+nightly", "miri", "run", "--offline", "--", "all"], cwd=mdir, env=env, timeout=3000)
+    ran = len(re.findall(r"^ran (\w+)", out, flags=re.M))
+    res = {"gen": "miri:all", "flavor": "miri", "lines": ran, "cases": len(MIRI_PROGRAMS) * n,
+           "dist": {"programs": len(MIRI_PROGRAMS), "seeds_per_program": n, "first_seed": lo, "program_runs_completed": ran,
+                    "wall_s": round(time.time() - t0, 1)},
+           "disagreements": [], "oracle": [], "error": None, "nontrivial": len(MIRI_PROGRAMS) * n,
+           "distinct_nontrivial": len(MIRI_PROGRAMS) * n, "samples": [{"programs": MIRI_PROGRAMS, "seeds": [lo, lo + n]}],
+           "disagreeing_lines": 0, "disagreeing_cases": 0, "_lines": [], "_cases": [], "_session": [], "_harness": None, "_workdir": mdir}
+    if rc == 0:
+        return res
+    if "Undefined Behavior" not in out and "error: unsupported operation" not in out and "FAILING SEED" not in out:
+        return {"error": f"miri run failed rc={rc}: {out[-800:]}"}
+    # attribute: run the programs one by one
+    k = 0
+    for prog in MIRI_PROGRAMS:
+        rc1, out1 = sh(["cargo", "+nightly", "miri", "run", "--offline", "--", prog], cwd=mdir, env=env, timeout=3000)
+        if rc1 == 0:
+            continue
+        m = re.search(r"error: (Undefined Behavior: [^\n]*|[^\n]*)", out1)
+        what = m.group(1) if m else "miri reported an error"
+        seeds = re.findall(r"FAILING SEED: (\d+)", out1)
+        i = out1.find("error: ")
+        block = out1[i:i + 2500].split("\n") if i >= 0 else out1[-2500:].split("\n")
+        path = write_replay(prop, f"oracle-{tag}-{prog}", [],
+                            [f"Miri (happens-before race detector, language memory model) on the un-hooked crate: program `{prog}` of /verif/miri/src/main.rs",
+                             f"failing seeds: {' '.join(seeds[:8])}   (cd /verif/miri && MIRIFLAGS=-Zmiri-seed={seeds[0] if seeds else lo} cargo +nightly miri run --offline -- {prog})"]
+                            + block[:40])
+        res["oracle"].append({"case": k, "prop": prop, "what": f"{prog}: {what}", "line": 0, "n": len(seeds) or 1, "replay": path})
+        k += 1
+    if not res["oracle"]:
+        return {"error": f"miri run failed rc={rc} but no single program reproduces it: {out[-600:]}"}
+    return res
+
+
 def leakcheck(prop, res, tag):
     """allocation-level oracle: after a warm-up, re-running the whole session must not change the
     number of live heap bytes.  Returns None when clean, else a dict with a (bisected) replay."""
